@@ -10,6 +10,7 @@ import (
 	"github.com/gebn/bmc"
 	"github.com/gebn/bmc/pkg/dcmi"
 	"github.com/gebn/bmc/pkg/ipmi"
+	"github.com/google/gopacket"
 	"pgregory.net/rapid"
 
 	"verif/harness/evid"
@@ -588,8 +589,83 @@ func TestConnectionHistory(t *testing.T) {
 	})
 }
 
+// TestSetupRequestLayers: the RMCP+ session-setup request layers with field
+// values the library's own handshake never produces. RAKP Message 3 (13.22): tag,
+// status, two reserved bytes, the BMC's session ID, then the AuthCode; when the
+// status reports an error the message ends after the session ID. RAKP Message 1:
+// both lookup modes, all 16 privilege nibbles, every username length. Each is
+// serialised into a fresh buffer and into one that carried another packet.
+func TestSetupRequestLayers(t *testing.T) {
+	opts := gopacket.SerializeOptions{FixLengths: true, ComputeChecksums: true}
+	ser := func(l gopacket.SerializableLayer, used bool) ([]byte, error) {
+		buf := gopacket.NewSerializeBuffer()
+		if used {
+			if err := gopacket.SerializeLayers(buf, opts, gopacket.Payload(bytes.Repeat([]byte{0xEE}, 300))); err != nil {
+				return nil, err
+			}
+		}
+		if err := gopacket.SerializeLayers(buf, opts, l); err != nil {
+			return nil, err
+		}
+		return append([]byte(nil), buf.Bytes()...), nil
+	}
+	n := 0
+	for status := 0; status < 256; status++ {
+		for _, codeLen := range []int{0, 12, 16, 20, 32} {
+			for _, used := range []bool{false, true} {
+				code := make([]byte, codeLen)
+				for i := range code {
+					code[i] = byte(status*7 + i*13 + 1)
+				}
+				sid := uint32(0xA1B2C3D4) + uint32(status)
+				l := &ipmi.RAKPMessage3{Tag: byte(status ^ 0x5a), Status: ipmi.StatusCode(status), ManagedSystemSessionID: sid, AuthCode: append([]byte(nil), code...)}
+				got, err := ser(l, used)
+				ev.Eval()
+				want := []byte{byte(status ^ 0x5a), byte(status), 0, 0, byte(sid), byte(sid >> 8), byte(sid >> 16), byte(sid >> 24)}
+				if status == 0 {
+					want = append(want, code...)
+				}
+				cs := map[string]any{"layer": "RAKPMessage3", "status": status, "authCodeBytes": codeLen, "usedBuffer": used}
+				if err != nil || !bytes.Equal(got, want) {
+					msg := fmt.Sprintf("serialised % x (err %v), the specification gives % x", got, err, want)
+					ev.Violation("TestSetupRequestLayers", cs, msg)
+					t.Fatalf("%v: %s", cs, msg)
+				}
+				n++
+				if status != 0 && codeLen > 0 {
+					ev.NonTrivial(fmt.Sprintf("rakp3|%d|%d|%v", status, codeLen, used))
+				}
+			}
+		}
+	}
+	for role := 0; role < 32; role++ {
+		for ulen := 0; ulen <= 16; ulen++ {
+			for _, used := range []bool{false, true} {
+				user := "ABCDEFGHIJKLMNOP"[:ulen]
+				l := &ipmi.RAKPMessage1{Tag: byte(role), ManagedSystemSessionID: 0x01020304, MaxPrivilegeLevel: ipmi.PrivilegeLevel(role & 0xf), PrivilegeLevelLookup: role&0x10 == 0, Username: user}
+				for i := range l.RemoteConsoleRandom {
+					l.RemoteConsoleRandom[i] = byte(i*3 + role)
+				}
+				got, err := ser(l, used)
+				ev.Eval()
+				want := append([]byte{byte(role), 0, 0, 0, 4, 3, 2, 1}, l.RemoteConsoleRandom[:]...)
+				want = append(want, byte(role), 0, 0, byte(ulen))
+				want = append(want, user...)
+				cs := map[string]any{"layer": "RAKPMessage1", "role": role, "usernameLength": ulen, "usedBuffer": used}
+				if err != nil || !bytes.Equal(got, want) {
+					msg := fmt.Sprintf("serialised % x (err %v), the specification gives % x", got, err, want)
+					ev.Violation("TestSetupRequestLayers", cs, msg)
+					t.Fatalf("%v: %s", cs, msg)
+				}
+				ev.NonTrivial(fmt.Sprintf("rakp1|%d|%d|%v", role, ulen, used))
+			}
+		}
+	}
+	ev.Label("setup-request-layers")
+}
+
 func TestCoverage(t *testing.T) {
-	need := []string{"history:session-info-by-id", "history:privilege-query-after-change", "history:reopen-after-in-session-traffic", "history:retransmissions-checked", "long-username-refused", "enum:cipher-suites", "enum:dcmi", "enum:dcmi-entity-instance", "handshake:auth1", "handshake:auth2", "handshake:auth3"}
+	need := []string{"setup-request-layers", "history:session-info-by-id", "history:privilege-query-after-change", "history:reopen-after-in-session-traffic", "history:retransmissions-checked", "long-username-refused", "enum:cipher-suites", "enum:dcmi", "enum:dcmi-entity-instance", "handshake:auth1", "handshake:auth2", "handshake:auth3"}
 	for _, e := range hx.Catalogue() {
 		_ = e
 	}
